@@ -108,7 +108,7 @@ spec fn limiter_after(rl0: RateLimiter, rl1: RateLimiter, force: bool, now: Inst
 TARGET_SPEC2 = r"""
 spec fn all_bars(ls: Seq<LineType>) -> bool { forall|i: int| 0 <= i < ls.len() ==> (#[trigger] ls[i]) is Bar }
 // size assumption on renderings and printed texts: few enough rows to count in 31 bits
-spec fn small(ls: Seq<LineType>) -> bool { lines_ok(ls) && forall|w: nat| 1 <= w <= 65535 ==> #[trigger] hts(ls, w, ls.len() as int) <= 0x1FFF_FFFF }
+spec fn small(ls: Seq<LineType>) -> bool { lines_ok(ls) && forall|w: nat| 1 <= w <= 65535 ==> #[trigger] hts(ls, w, ls.len() as int) <= 0x0FFF_FFFF }
 // R5: `msg.lines().map(|l| LineType::Text(Into::into(l))).collect()`
 uninterp spec fn text_lines_of(msg: Seq<char>) -> Seq<LineType>;
 #[verifier::external_body]
@@ -177,11 +177,11 @@ proof fn lemma_hts_prefix(a: Seq<LineType>, c: Seq<LineType>, w: nat, k: int)
 }
 proof fn lemma_small_concat(a: Seq<LineType>, b: Seq<LineType>, w: nat)
     requires small(a), small(b), 1 <= w <= 65535
-    ensures lines_ok(a + b), hts(a + b, w, (a + b).len() as int) <= 0x3FFF_FFFE
+    ensures lines_ok(a + b), hts(a + b, w, (a + b).len() as int) <= 0x1FFF_FFFE
 {
     lemma_hts_concat(a, b, w, b.len() as int);
-    assert(hts(a, w, a.len() as int) <= 0x1FFF_FFFF);
-    assert(hts(b, w, b.len() as int) <= 0x1FFF_FFFF);
+    assert(hts(a, w, a.len() as int) <= 0x0FFF_FFFF);
+    assert(hts(b, w, b.len() as int) <= 0x0FFF_FFFF);
     assert forall|i: int| 0 <= i < (a + b).len() implies cols(line_str(#[trigger] (a + b)[i])) <= 0xFFFF_FFFF && !is_cr(line_str((a + b)[i])) by {
         if i < a.len() { assert((a + b)[i] == a[i]); } else { assert((a + b)[i] == b[i - a.len()]); }
     }
@@ -193,12 +193,12 @@ proof fn lemma_small_empty_line()
     let e = seq![LineType::Empty];
     assert(line_str(e[0]) == Seq::<char>::empty());
     assert(seq!['\r'].len() == 1);
-    assert forall|w: nat| 1 <= w <= 65535 implies #[trigger] hts(e, w, e.len() as int) <= 0x1FFF_FFFF by {
+    assert forall|w: nat| 1 <= w <= 65535 implies #[trigger] hts(e, w, e.len() as int) <= 0x0FFF_FFFF by {
         reveal_with_fuel(hts, 3);
         lemma_height_covers(0, w);
         assert(ceil_div(0, w) <= 1);
     }
-    assert forall|w: nat| 1 <= w <= 65535 implies #[trigger] hts(Seq::<LineType>::empty(), w, 0) <= 0x1FFF_FFFF by { }
+    assert forall|w: nat| 1 <= w <= 65535 implies #[trigger] hts(Seq::<LineType>::empty(), w, 0) <= 0x0FFF_FFFF by { }
 }
 spec fn drew(a: ProgressDrawTarget, b: ProgressDrawTarget, f: bool, now: Instant, lines: Seq<LineType>) -> bool {
     draw_effect(a, b, f, now, lines, Ok(())) || exists|e: IoError| #[trigger] draw_effect(a, b, f, now, lines, Err(e))
